@@ -172,11 +172,31 @@ Definition skip_header (l : list Z) : option (Z * Z * list Z * list Z) :=
   | _ => None
   end.
 
+(* Well-formedness of the stimuli of a case, as far as the theorems about the composite model
+   assume it (Properties.c05_composite_monitor_accepts): caller ids are fresh, a ranking lists
+   an address once and its delays are in [0, 2 s), the clock does not run backwards.  The driver
+   rejects a recorded case that is not of this shape, so the hypothesis holds of every case
+   that is judged. *)
+Definition rank_ok_b (rank : option (list (Z * Z))) : bool :=
+  match rank with
+  | Some rk => nodup_z (map fst rk) && forallb (fun x => (0 <=? snd x) && (snd x <? 2000000000)) rk
+  | None => true
+  end.
+
+Fixpoint wf_stims_b (seen : list Z) (xs : list cstim) : bool :=
+  match xs with
+  | [] => true
+  | KCall c _ _ rank :: r => negb (mem_z c seen) && rank_ok_b rank && wf_stims_b (c :: seen) r
+  | KAdvance d :: r => (0 <=? d) && wf_stims_b seen r
+  | _ :: r => wf_stims_b seen r
+  end.
+
 Definition monitor_d_case (l : list Z) : list Z :=
   match skip_header l with
   | Some (fdl, ppl, _, r) =>
       match decode_dtrace (S (length r)) r with
       | Some tr =>
+          if negb (wf_stims_b [] (map fst tr)) then [ERR_MALFORMED; 52] else
           match monitor_d fdl ppl (mkDmon [] [] [] false false) 0 tr with
           | [] =>
               (* the case ends with every caller returned *)
